@@ -12,8 +12,11 @@ OBS = 'ObsC16'
 def program(sc):
     """the caller runs as a task so that it can be cancelled; a spinner keeps the time step busy"""
     call = {'op': 'flow', 'fop': sc['op'], 'acts': sc['acts'], 'k': sc['k'], 'cons': sc['cons']}
+    body = [call, {'op': 'sleep', 'd': 1}]
+    if sc['cons'] == 'until1':      # the call is made inside an until-block of the caller that expires at +1
+        body = [{'op': 'open', 'kind': 'until_d', 'd': 1, 'catch': True}, call, {'op': 'leave'}, {'op': 'sleep', 'd': 1}]
     root = [{'op': 'open', 'kind': 'scope', 'catch': True},
-            {'op': 'do', 's': -1, 'vol': sc['cons'] == 'close1', 'fin': 'none', 'prog': [call, {'op': 'sleep', 'd': 1}]}]
+            {'op': 'do', 's': -1, 'vol': sc['cons'] == 'close1', 'fin': 'none', 'prog': body}]
     if sc['cons'] == 'cancel1':
         root += [{'op': 'sleep', 'd': 1}, {'op': 'cancel', 'k': 2}]
     if sc['cons'] == 'close1':      # the scope ends at +1: its volatile child (the caller) is closed forcefully
@@ -23,23 +26,29 @@ def program(sc):
 
 
 def run(check):
-    consts = dict(MaxN=3 if check.tier == 'quick' else 4, MaxDur=2)
-    cfg = os.path.join(check.tmp, 'flow.cfg')
-    tlc.write_cfg(cfg, 'Spec', consts, invariants=['OrderIsPermutation', 'OrderSorted', 'FailTimeIsFirst', 'Emit'])
-    with open(cfg) as fh:
-        text = fh.read()
-    # Flow has its own constants only
-    with open(cfg, 'w') as fh:
-        fh.write('\n'.join(l for l in text.splitlines()
-                           if not any(l.strip().startswith(k + ' =') for k in tlc.DEFAULTS)) + '\n')
-    r = tlc.run_tlc('Flow', cfg, workers=8)
-    if r.errors or r.violated:
-        raise core.MachineryError('Flow.tla: %s' % (r.violated or r.errors)[:3])
-    scenarios, bad = parse_witnesses(r)
-    check.states += r.distinct
-    check.transitions += r.generated
-    check.tlc_runs.append({'label': 'scenarios', 'module': 'Flow', 'constants': consts, 'distinct': r.distinct,
-                           'generated': r.generated, 'scenarios': len(scenarios), 'wall_s': round(r.wall, 1)})
+    scenarios = []
+    # second space: activities that last for ever (duration 99 = math.inf: time does reach infinity in usim)
+    for label, consts in (('scenarios', dict(MaxN=3 if check.tier == 'quick' else 4, Durs={0, 1, 2})),
+                          ('scenarios_infinite_durations', dict(MaxN=2 if check.tier == 'quick' else 3, Durs={0, 1, 99}))):
+        cfg = os.path.join(check.tmp, 'flow.cfg')
+        tlc.write_cfg(cfg, 'Spec', consts, invariants=['OrderIsPermutation', 'OrderSorted', 'FailTimeIsFirst', 'Emit'])
+        with open(cfg) as fh:
+            text = fh.read()
+        # Flow has its own constants only
+        with open(cfg, 'w') as fh:
+            fh.write('\n'.join(l for l in text.splitlines()
+                               if not any(l.strip().startswith(k + ' =') for k in tlc.DEFAULTS)) + '\n')
+        r = tlc.run_tlc('Flow', cfg, workers=8)
+        if r.errors or r.violated:
+            raise core.MachineryError('Flow.tla: %s' % (r.violated or r.errors)[:3])
+        more, bad = parse_witnesses(r)
+        if 99 in consts['Durs']:
+            more = [sc for sc in more if any(a['d'] == 99 for a in sc['acts']) and sc['cons'] != 'slow']
+        check.states += r.distinct
+        check.transitions += r.generated
+        check.tlc_runs.append({'label': label, 'module': 'Flow', 'constants': core._jsonable(consts), 'distinct': r.distinct,
+                               'generated': r.generated, 'scenarios': len(more), 'wall_s': round(r.wall, 1)})
+        scenarios += more
     progs = [program(sc) for sc in scenarios]
     results = usimrun.run_many(progs, 1)
     runs = []
